@@ -141,6 +141,13 @@ public:
 	  {
 	    output_basename = string(1, entry.directory()) + "." + rtrim(entry.name());
 	  }
+	if (output_basename.find('/') != string::npos
+	    || output_basename == "." || output_basename == "..")
+	  {
+	    std::cerr << "refusing to extract " << output_origname
+		      << ": it has no usable name inside " << dest_dir << "\n";
+	    return false;
+	  }
 	const string output_body_file = dest_dir + output_basename;
 
 	std::ofstream outfile(output_body_file, std::ofstream::out);
